@@ -220,6 +220,12 @@ def rxEvents : List Rx → List Ev
   | .dgram a d :: rest => .rx a (d.take 1024).length :: rxEvents rest
   | _ :: rest => rxEvents rest
 
+/-- the send-failure counter after `recv` has passed over these script items -/
+def applySf {σ : Type} (st : St σ) (passed : List Rx) : St σ :=
+  match lastSf passed with
+  | some k => { st with sendFail := k }
+  | none => st
+
 /-- flows still alive when `run_inner` returns are dropped (before the backend, which then closes) -/
 def shutdown {σ : Type} (st : St σ) : List Ev :=
   dropAll (st.flows.flatMap fun p => p.2)
@@ -245,15 +251,11 @@ def loopStep {σ : Type} (cfg : Cfg) (pol : Policy σ) (b : Backend) (rx : List 
   | .ok (none, _, rx') =>
     .ok (.finished (if endedByStop b rx then .ok else .err) st (rxEvents (rx.take (rx.length - rx'.length))))
   | .ok (some (msg, addr), b', rx') =>
-    let passed := rx.take (rx.length - rx'.length)
-    let st := match lastSf passed with
-      | some k => { st with sendFail := k }
-      | none => st
-    match step cfg pol st addr msg with
+    match step cfg pol (applySf st (rx.take (rx.length - rx'.length))) addr msg with
     | .panic => .panic
     | .err => .err
-    | .ok (.cont st' evs) => .ok (.more b' rx' st' (rxEvents passed ++ evs))
-    | .ok (.fail st' evs) => .ok (.finished .err st' (rxEvents passed ++ evs))
+    | .ok (.cont st' evs) => .ok (.more b' rx' st' (rxEvents (rx.take (rx.length - rx'.length)) ++ evs))
+    | .ok (.fail st' evs) => .ok (.finished .err st' (rxEvents (rx.take (rx.length - rx'.length)) ++ evs))
 
 /-- `run_inner` after the programs have been compiled: the trace and the result -/
 def runLoop {σ : Type} (cfg : Cfg) (pol : Policy σ) : Nat → Backend → List Rx → St σ → List Ev → Out (List Ev × Res)
